@@ -59,3 +59,18 @@ func (f CertificateFingerprint) Hex() string {
 func (f *CertificateFingerprint) MarshalJSON() ([]byte, error) {
 	return json.Marshal(f.Hex())
 }
+
+// UnmarshalJSON implements the json.Unmarshaler interface, and reads the hex
+// string written by MarshalJSON.
+func (f *CertificateFingerprint) UnmarshalJSON(b []byte) error {
+	var s string
+	if err := json.Unmarshal(b, &s); err != nil {
+		return err
+	}
+	raw, err := hex.DecodeString(s)
+	if err != nil {
+		return err
+	}
+	*f = raw
+	return nil
+}
